@@ -439,7 +439,8 @@ theorem stepTok_len (dia : Dialect) (aw : Bool) (c : Nat) (r : Str) (line col : 
         exact ⟨by simpa [mkTok, Step.pos] using hl, by simp [mkTok, Step.tyOk]⟩
     · rw [if_neg hcol] at h
       obtain ⟨s, l1, hs1, h5⟩ := L.bind_ok_inv h
-      have hl := scanUnquoted_len dia _ _ _ _ _ _ _ _ _ _ _ _ hs1
+      have hm : metaOfCls (classOf dia c) = .general ∨ metaOfCls (classOf dia c) = .no := by rw [hs]; exact Or.inl rfl
+      have hl := scanUnquoted_len_lt dia c r _ _ _ _ _ _ _ _ _ _ hm hs1
       have := finishUnquoted_len h5
       exact ⟨by omega, this.2⟩
   · rw [if_neg hs] at h
